@@ -81,10 +81,13 @@ type caseIn struct {
 	OriginText []byte `json:"origin_text"` // canonical text legitimately signed that Prov derives from; empty = none
 	OriginFP   string `json:"origin_fp"`
 	Root       string `json:"root"` // working directory (signed absolute-path variants refer to it)
+	// Entries restricts the entry points to run (empty = all five).
+	Entries []string `json:"entries,omitempty"`
 }
 
 // obs is what one entry point did.
 type obs struct {
+	Entry  string
 	OK     bool
 	Err    string
 	Panic  string
@@ -321,8 +324,13 @@ func (e *env) execCase(ci *caseIn) (verdict, []obs, []core.Violation) {
 	var os_ []obs
 	byKey := map[string][]finding{}
 	var gks []string
-	for _, en := range entries {
+	run := entries
+	if len(ci.Entries) > 0 {
+		run = ci.Entries
+	}
+	for _, en := range run {
 		o := e.runEntry(en, ci, archPath, ringPath)
+		o.Entry = en
 		os_ = append(os_, o)
 		fs := judge(ci, v, en, o)
 		if len(fs) == 0 {
@@ -505,20 +513,23 @@ func run(c *core.Ctx) {
 	for i, p := range f.pairs {
 		c.Bound(fmt.Sprintf("pair%d", i), fmt.Sprintf("%s/k%d archive=%dB prov=%dB", p.Base, p.Key, len(p.Archive), len(p.Prov)))
 	}
-	bulkRings := []int{0, 1}
+	bulkRings := []int{1}
 	if c.Thorough() {
 		bulkRings = []int{0, 1, 2, 3}
 		c.Bound("bulk_keyrings", "signer, other+signer, other-only, empty")
+		c.Bound("bulk_entry_points", "all five")
 	} else {
-		c.Bound("bulk_keyrings", "signer, other+signer (bit flips and truncations); all four for every other family")
+		x.bulkEntries = entries[:3]
+		c.Bound("bulk_keyrings", "other+signer for bit flips and truncations; all four for every other family")
+		c.Bound("bulk_entry_points", "Signatory.Verify, VerifyChart, DownloadTo for bit flips and truncations; all five for every other family")
 	}
 	c.Bound("prov_bitflips", "every bit of every byte")
 	c.Bound("prov_truncations", "every length 0..len-1")
 	c.Bound("archive_bitflips", "every bit of every byte")
 	c.Bound("archive_truncations", "every length 0..len-1")
 	if c.Thorough() {
-		c.Bound("prov_byte_substitutions", "every byte position x all 255 other values (keyring other+signer)")
-		c.Bound("prov_byte_deletions", "every byte position (keyring other+signer)")
+		c.Bound("prov_byte_substitutions", "every byte position x all 255 other values (keyring other+signer; Signatory.Verify, VerifyChart, DownloadTo)")
+		c.Bound("prov_byte_deletions", "every byte position (keyring other+signer; Signatory.Verify, VerifyChart, DownloadTo)")
 	}
 
 	x.sentinels()
@@ -548,6 +559,8 @@ type explorer struct {
 	f *fixture
 	e *env
 	n int
+	// bulkEntries: entry points for the positional families (nil = all five)
+	bulkEntries []string
 }
 
 func (x *explorer) want(family string) bool {
@@ -569,7 +582,11 @@ func (x *explorer) emit(canon string, build func() *caseIn) {
 		return
 	}
 	ci := build()
-	c.Eval(int64(len(entries)))
+	if len(ci.Entries) > 0 {
+		c.Eval(int64(len(ci.Entries)))
+	} else {
+		c.Eval(int64(len(entries)))
+	}
 	c.Distinct(canon)
 	v, os_, vs := x.e.execCase(ci)
 	cls := ci.Family + ":"
@@ -602,11 +619,11 @@ func (x *explorer) emit(canon string, build func() *caseIn) {
 	x.n++
 	if len(vs) == 0 && (x.n%1499 == 1 || (v.Accept && ci.Family != "baseline" && x.n%7 == 0)) {
 		helm := map[string]string{}
-		for i, o := range os_ {
+		for _, o := range os_ {
 			if o.OK {
-				helm[entries[i]] = "ok " + o.Hash
+				helm[o.Entry] = "ok " + o.Hash
 			} else {
-				helm[entries[i]] = "error: " + o.Err + o.Panic
+				helm[o.Entry] = "error: " + o.Err + o.Panic
 			}
 		}
 		c.Sample(map[string]any{"family": ci.Family, "case": ci.Desc, "pair": ci.Pair, "keyring": ci.Ring, "archive_name": ci.ArchName, "region": ci.Region,
@@ -709,9 +726,9 @@ func (x *explorer) sentinels() {
 	}
 	for _, ci := range cases {
 		v, os_, _ := x.e.execCase(ci)
-		for i, o := range os_ {
+		for _, o := range os_ {
 			if o.OK != v.Accept {
-				bl[entries[i]][v.Reason] = true
+				bl[o.Entry][v.Reason] = true
 			}
 		}
 	}
@@ -951,6 +968,25 @@ func (x *explorer) signedVariants(pi int) {
 	}
 }
 
+// emitB is emit for the positional families (tier-dependent entry points).
+func (x *explorer) emitB(canon string, build func() *caseIn) {
+	x.emit(canon, func() *caseIn {
+		ci := build()
+		ci.Entries = x.bulkEntries
+		return ci
+	})
+}
+
+// emitD is emit for the thorough-only byte substitution/deletion families: the
+// three entry points named by the property.
+func (x *explorer) emitD(canon string, build func() *caseIn) {
+	x.emit(canon, func() *caseIn {
+		ci := build()
+		ci.Entries = entries[:3]
+		return ci
+	})
+}
+
 // bulk: every single-bit flip and every truncation of provenance and archive.
 func (x *explorer) bulk(pi, ri int) {
 	p := x.f.pairs[pi]
@@ -959,7 +995,7 @@ func (x *explorer) bulk(pi, ri int) {
 		for pos := range p.Prov {
 			for bit := 0; bit < 8; bit++ {
 				pos, bit := pos, bit
-				x.emit(fmt.Sprintf("prov-bitflip|%d|%d|%d|%d", pi, ri, pos, bit), func() *caseIn {
+				x.emitB(fmt.Sprintf("prov-bitflip|%d|%d|%d|%d", pi, ri, pos, bit), func() *caseIn {
 					ci := x.base(pi, ri, "prov-bitflip", fmt.Sprintf("provenance byte %d bit %d flipped (%q -> %q, %s)", pos, bit, p.Prov[pos], p.Prov[pos]^(1<<bit), regs[pos]))
 					ci.Region = regs[pos]
 					ci.Prov = append([]byte{}, p.Prov...)
@@ -973,7 +1009,7 @@ func (x *explorer) bulk(pi, ri int) {
 		regs := provRegions(p.Prov)
 		for n := 0; n < len(p.Prov); n++ {
 			n := n
-			x.emit(fmt.Sprintf("prov-truncate|%d|%d|%d", pi, ri, n), func() *caseIn {
+			x.emitB(fmt.Sprintf("prov-truncate|%d|%d|%d", pi, ri, n), func() *caseIn {
 				ci := x.base(pi, ri, "prov-truncate", fmt.Sprintf("provenance truncated to its first %d of %d bytes (cut in %s)", n, len(p.Prov), regs[n]))
 				ci.Region = regs[n]
 				ci.Prov = append([]byte{}, p.Prov[:n]...)
@@ -985,7 +1021,7 @@ func (x *explorer) bulk(pi, ri int) {
 		for pos := range p.Archive {
 			for bit := 0; bit < 8; bit++ {
 				pos, bit := pos, bit
-				x.emit(fmt.Sprintf("archive-bitflip|%d|%d|%d|%d", pi, ri, pos, bit), func() *caseIn {
+				x.emitB(fmt.Sprintf("archive-bitflip|%d|%d|%d|%d", pi, ri, pos, bit), func() *caseIn {
 					ci := x.base(pi, ri, "archive-bitflip", fmt.Sprintf("archive byte %d bit %d flipped", pos, bit))
 					ci.Region = archiveRegion(p.Archive, pos)
 					ci.Archive = append([]byte{}, p.Archive...)
@@ -998,7 +1034,7 @@ func (x *explorer) bulk(pi, ri int) {
 	if x.want("archive-truncate") {
 		for n := 0; n < len(p.Archive); n++ {
 			n := n
-			x.emit(fmt.Sprintf("archive-truncate|%d|%d|%d", pi, ri, n), func() *caseIn {
+			x.emitB(fmt.Sprintf("archive-truncate|%d|%d|%d", pi, ri, n), func() *caseIn {
 				ci := x.base(pi, ri, "archive-truncate", fmt.Sprintf("archive truncated to its first %d of %d bytes", n, len(p.Archive)))
 				ci.Region = archiveRegion(p.Archive, n)
 				ci.Archive = append([]byte{}, p.Archive[:n]...)
@@ -1020,7 +1056,7 @@ func (x *explorer) deep(pi, ri int) {
 					continue // single-bit differences are the prov-bitflip family
 				}
 				pos, d := pos, d
-				x.emit(fmt.Sprintf("prov-bytesub|%d|%d|%d|%d", pi, ri, pos, d), func() *caseIn {
+				x.emitD(fmt.Sprintf("prov-bytesub|%d|%d|%d|%d", pi, ri, pos, d), func() *caseIn {
 					nb := p.Prov[pos] ^ byte(d)
 					ci := x.base(pi, ri, "prov-bytesub", fmt.Sprintf("provenance byte %d replaced (%q -> %q, %s)", pos, p.Prov[pos], nb, regs[pos]))
 					ci.Region = regs[pos]
@@ -1034,7 +1070,7 @@ func (x *explorer) deep(pi, ri int) {
 	if x.want("prov-bytedel") {
 		for pos := range p.Prov {
 			pos := pos
-			x.emit(fmt.Sprintf("prov-bytedel|%d|%d|%d", pi, ri, pos), func() *caseIn {
+			x.emitD(fmt.Sprintf("prov-bytedel|%d|%d|%d", pi, ri, pos), func() *caseIn {
 				ci := x.base(pi, ri, "prov-bytedel", fmt.Sprintf("provenance byte %d (%q, %s) deleted", pos, p.Prov[pos], regs[pos]))
 				ci.Region = regs[pos]
 				ci.Prov = append(append([]byte{}, p.Prov[:pos]...), p.Prov[pos+1:]...)
